@@ -8,7 +8,6 @@ import (
 	"encoding/json"
 	"errors"
 	"fmt"
-	"os"
 	"runtime"
 	"strings"
 	"sync"
@@ -136,10 +135,10 @@ func (w *c23world) connFn() func(dst string, opt *ClientOption) conn {
 				}
 			}
 		}
-		w.mu.Unlock()
-		if c.idx < 0 {
-			panic("c23: unexpected address " + dst)
+		if c.idx < 0 { // an address nobody listens on
+			c.kind, c.idx, c.side = 'x', 0, 'x'
 		}
+		w.mu.Unlock()
 		return &mockConn{
 			AddrFn:    func() string { return dst },
 			DialFn:    c.dial,
@@ -154,6 +153,9 @@ func (w *c23world) connFn() func(dst string, opt *ClientOption) conn {
 }
 
 func (c *c23conn) down() bool {
+	if c.kind == 'x' {
+		return true
+	}
 	if c.kind == 's' {
 		return c.w.sfail[c.idx]
 	}
@@ -165,7 +167,7 @@ func (c *c23conn) dial() error {
 	down := c.down()
 	c.w.mu.Unlock()
 	if down {
-		if c.kind == 'n' {
+		if c.kind != 's' {
 			c.w.holdFailure()
 		}
 		return c23errDown
@@ -320,14 +322,8 @@ func (s *c23sim) violate(sig, detail string) { s.viol = append(s.viol, [2]string
 func c23goroutineIn(sub string) bool { return c23count(sub) > 0 }
 
 // settle waits (on conditions, not on time) until the goroutines the client started in the last step are done
-var c23dbg = os.Getenv("C23DBG") != ""
-
 func (s *c23sim) settle() {
 	w := s.w
-	if c23dbg {
-		fmt.Fprintf(os.Stderr, "  settle world %p start\n", w)
-		defer fmt.Fprintf(os.Stderr, "  settle world %p done\n", w)
-	}
 	w.mu.Lock()
 	for w.receives < w.unsubs {
 		w.cond.Wait()
@@ -341,8 +337,15 @@ func (s *c23sim) settle() {
 	}
 }
 
+// c23base is runtime.NumGoroutine() of the idle test process, taken once before the first client exists
+var c23base int
+
 func c23start(root c23root) *c23sim {
-	s := &c23sim{root: root, w: c23newWorld(root.Belief, root.Master), base: runtime.NumGoroutine()}
+	// nothing of an earlier history is left running
+	for runtime.NumGoroutine() > c23base {
+		runtime.Gosched()
+	}
+	s := &c23sim{root: root, w: c23newWorld(root.Belief, root.Master), base: c23base}
 	s.w.replicas = root.Replicas
 	opt := &ClientOption{InitAddress: []string{c23sentAddr[0], c23sentAddr[1]}, Sentinel: SentinelOption{MasterSet: c23masterSet}}
 	if root.Replicas {
@@ -467,9 +470,6 @@ func (s *c23sim) userDo(write bool) (node int, err error) {
 }
 
 func (s *c23sim) apply(ev string) {
-	if c23dbg {
-		fmt.Fprintf(os.Stderr, " apply %s world %p dead=%v\n", ev, s.w, s.dead)
-	}
 	if s.dead {
 		return
 	}
@@ -521,10 +521,14 @@ func (s *c23sim) apply(ev string) {
 		w.log = append(w.log, fmt.Sprintf("sentinel%d publishes +switch-master -> node%d", sub.c.idx, m))
 		w.mu.Unlock()
 		ip, port := c23split(c23nodeAddr[m])
+		oldIP, oldPort := "10.9.9.9", "6379"
+		if a, ok := s.cl.mAddr.Load().(string); ok {
+			oldIP, oldPort = c23split(a) // "<master set> <old ip> <old port> <new ip> <new port>"
+		}
 		if good {
 			// the real path: the callback the client handed to Receive
 			p, site := vrun.Catch(func() {
-				sub.fn(PubSubMessage{Channel: "+switch-master", Message: c23masterSet + " 10.9.9.9 6379 " + ip + " " + port})
+				sub.fn(PubSubMessage{Channel: "+switch-master", Message: c23masterSet + " " + oldIP + " " + oldPort + " " + ip + " " + port})
 			})
 			if p != nil {
 				s.violate("+switch-master handler: panic in "+site, fmt.Sprint(p))
@@ -659,6 +663,7 @@ func c23report(r *vrun.Run, c c23case, s *c23sim) {
 func TestVerif_C23(t *testing.T) {
 	vrun.Main(t, "C23", func(r *vrun.Run) {
 		r.Rule = "BFS over event histories of depth <= D from 4 roots (client with/without SendToReplicas x {both sentinels name the real master, sentinel0 names a slave}); alphabet: S<s>=<m> sentinel s believes node m is master (6), F<x> node x flips ROLE master<->slave (3), D deliver +switch-master on the live subscription announcing that sentinel's belief, N<x> node x down (3), Z<s> sentinel s down (2), P a refreshRetry is triggered (as by +slave/-sdown/+reboot), W user write, R user read; a state = (world, client targets/connections/sentinel list/pending retry) after replaying the history on a fresh client; only new states are expanded. non-trivial = state in which the client's master connection differs from the root's"
+		c23base = runtime.NumGoroutine()
 		if raw, ok := r.ReplayPayload(); ok {
 			var c c23case
 			if err := json.Unmarshal(raw, &c); err != nil {
@@ -702,9 +707,6 @@ func TestVerif_C23(t *testing.T) {
 				for _, h := range frontier {
 					for _, ev := range evs {
 						c := c23case{Root: root, Events: append(append([]string(nil), h...), ev)}
-						if os.Getenv("C23DBG") != "" {
-							fmt.Fprintln(os.Stderr, "replay", c.Root, c.Events)
-						}
 						s := c23replay(c)
 						r.Evaluations++
 						r.Transitions++
